@@ -1,6 +1,8 @@
 package jmespath
 
 import (
+	"encoding/json"
+
 	"github.com/woodsbury/decimal128"
 )
 
@@ -8,7 +10,7 @@ import (
 // One mathematical value v, two carriers; results must be errors of the same
 // class or values equal as numbers.
 
-const c14Carriers = 16
+const c14Carriers = 17
 
 // c14Carry returns v in carrier k; ok=false if v does not fit that carrier.
 func c14Carry(v int, k int) (any, bool) {
@@ -43,8 +45,12 @@ func c14Carry(v int, k int) (any, bool) {
 		return float32(v), true
 	case 14:
 		return float64(v), true
-	default:
+	case 15:
 		return decimal128.FromInt64(int64(v)), true
+	default:
+		// the same value with one fractional digit (v.0): a different encoding
+		// (zero is left to carrier 15: the library normalises its exponent)
+		return decimal128.New(int64(v)*10, -1), v != 0
 	}
 }
 
@@ -75,6 +81,10 @@ func H_C14_carriers() {
 	b1, ok3 := c14Carry(vb, c1)
 	b2, ok4 := c14Carry(vb, c2)
 	vrtAssume(ok1 && ok2 && ok3 && ok4)
+	if vrtBool("mixed") {
+		// only b changes its carrier: operands of two different Go types meet
+		a2 = a1
+	}
 	r1, err1 := Search(expr, map[string]any{"a": a1, "b": b1})
 	r2, err2 := Search(expr, map[string]any{"a": a2, "b": b2})
 	vrtAssert((err1 == nil) == (err2 == nil), "one number type fails where the other succeeds")
@@ -86,6 +96,48 @@ func H_C14_carriers() {
 	}
 	vrtAssert(refEqual(r1, r2), "result depends on the Go type that carries the number")
 	vrtReach("compared")
+}
+
+// H_C14_wide: binary floating-point leaves whose exact value needs more digits
+// than the shortest round-trip text shows (2^30, 2^-20, 10^10 as float32;
+// 2^60, 2^-40 as float64), against the same value carried as integer, decimal
+// text and decimal: conversion must be exact, not via the shortest text.
+var c14Wide32 = []float32{1073741824, 9.5367431640625e-07, 1e10, 16777216, 0.5, 8589934592, 1.52587890625e-05, 33554432}
+var c14WideText = []string{"1073741824", "0.00000095367431640625", "10000000000", "16777216", "0.5", "8589934592", "0.0000152587890625", "33554432"}
+var c14Wide64 = []float64{1152921504606846976, 9.094947017729282379150390625e-13, 1e22, 9007199254740992, 0.1, 4611686018427387904, 1.4551915228366851806640625e-11, 72057594037927936}
+var c14Wide64Text = []string{"1152921504606846976", "0.000000000000909494701772928237915039062500", "10000000000000000000000", "9007199254740992", "0.1000000000000000055511151231257827021181583404541015625", "4611686018427387904", "0.000000000014551915228366851806640625", "72057594037927936"}
+
+var c14WideExprs = []string{"a == b", "a != b", "a < b", "a > b", "a <= b", "contains([a], b)", "a - b == `0`", "max([a, b]) == min([a, b])", "sort([a, b])[0] == sort([b, a])[0]", "[a][?@ == b] | length(@)", "sum([a]) == b", "abs(a) == b", "a + `0` == b"}
+
+func H_C14_wide() {
+	i := vrtChoose("value", len(c14Wide32))
+	expr := c14WideExprs[vrtChoose("expr", len(c14WideExprs))]
+	vrtNote("template:" + expr)
+	var a any
+	var text string
+	if vrtBool("f64") {
+		a, text = c14Wide64[i], c14Wide64Text[i]
+	} else {
+		a, text = c14Wide32[i], c14WideText[i]
+	}
+	var b any
+	if vrtBool("decimal") {
+		d, err := decimal128.Parse(text)
+		vrtAssume(err == nil)
+		b = d
+	} else {
+		b = json.Number(text)
+	}
+	// reference: both operands as exact decimal text
+	want, ec := refSearch(expr, map[string]any{"a": json.Number(text), "b": json.Number(text)})
+	got, err := Search(expr, map[string]any{"a": a, "b": b})
+	if ec != ecNone {
+		return
+	}
+	vrtAssert(err == nil, "unexpected error")
+	if err == nil {
+		vrtAssert(refEqual(got, want), "a float leaf is not converted exactly")
+	}
 }
 
 // c14Big returns value v (any int64 / uint64 magnitude, given as hi*2^32+lo with
